@@ -48,6 +48,12 @@ def chunks(tier, seed):
     for n in ([15, 16, 17, 31, 32, 33] if tier == "quick" else [15, 16, 17, 31, 32, 33, 63, 64, 65, 127, 128, 129]):
         out.append({"n": n, "nrand": 4 if tier == "quick" else 12, "part": 0, "parts": 1, "key": "big%d" % n,
                     "ops": ["insert", "insert_chain", "sort", "lt", "gt"]})
+    # larger scale: hundreds / thousands of observations (arguments sampled, always with the boundary ones)
+    for n in ([201, 260, 640] if tier == "quick" else [201, 260, 640, 1025, 3000]):
+      for part in range(6):
+        out.append({"n": n, "nrand": 2, "part": part, "parts": 6, "key": "scale%d.%d" % (n, part), "scale": 1,
+                    "ops": ["sort", "insert", "extract", "span", "add", "mod_int", "mod_pattern", "gt", "lt",
+                            "remove_list", "remove_one", "pop", "slice", "sort_radix", "remove_ends"]})
     return out
 
 
@@ -55,7 +61,8 @@ def floors(tier):
     return {"monitors": {"getInsertionIndex.keeps_sorted": 1000, "model.ids": 5000, "source.unchanged": 5000},
             "classes": {"op:" + o: 20 for o in set(OPS)} | {"size:0": 5, "size:1": 10, "size:2": 10, "size:4": 10,
                                                         "pattern:duplicates": 50, "pattern:all_equal": 20,
-                                                        "pattern:reversed": 20},
+                                                        "pattern:reversed": 20,
+                                                        "track_of_hundreds_of_observations": 100},
             "distinct_nontrivial": 100}
 
 
@@ -229,6 +236,15 @@ class Judge:
         return True
 
 
+def pick_args(rng, seq, big, k=24):
+    """seq itself for small tracks; for large ones its first two, last two and k sampled elements (in order)."""
+    seq = list(seq)
+    if not big or len(seq) <= k + 4:
+        return seq
+    idx = sorted(set([0, 1, len(seq) - 2, len(seq) - 1] + rng.sample(range(len(seq)), k)))
+    return [seq[i] for i in idx]
+
+
 def run_case(case, ctx):
     from tracklib.core.obs import Obs
     from tracklib.core.obs_coords import ENUCoords
@@ -241,7 +257,10 @@ def run_case(case, ctx):
     tid = {i: times[i] for i in range(n)}
     order = sorted(range(n), key=lambda i: times[i])
     is_sorted = all(times[i] <= times[i + 1] for i in range(n - 1))
-    cls = ["op:" + op, "size:%d" % n, "pattern:" + case["pattern"]]
+    big = n > 150
+    cls = ["op:" + op, "size:%d" % n if not big else "size:150+", "pattern:" + case["pattern"]]
+    if big:
+        cls.append("track_of_hundreds_of_observations")
     rank = tuple(sorted(set(times)).index(t) for t in times)
     sig = (op, rank)
 
@@ -281,7 +300,7 @@ def run_case(case, ctx):
                 cand.update([st[0] - 86400000 * 400, st[-1] + 86400000 * 400, st[0] - 1000, st[-1] + 1000])
             else:
                 cand.add(BASES[0])
-            cand = sorted(c for c in cand if c >= 0)
+            cand = pick_args(rng, sorted(c for c in cand if c >= 0), big)
             for c in cand:
                 tr = build(st)
                 new = Obs(ENUCoords(-1.0, -1.0, -1.0), gen.obstime_from_ms(c))
@@ -332,8 +351,8 @@ def run_case(case, ctx):
     elif op == "extract":
         tr = T()
         snap = snapshot(tr)
-        for i in range(n):
-            for j in range(i, n):
+        for i in pick_args(rng, range(n), big, 8):
+            for j in pick_args(rng, range(i, n), big, 6):
                 res = M.call(tr.extract, i, j)
                 if not J.check_result(res, range(i, j + 1), tid, {"i": i, "j": j}):
                     break
@@ -393,7 +412,7 @@ def run_case(case, ctx):
     elif op == "mod_int":
         tr = T()
         snap = snapshot(tr)
-        for k in range(1, n + 3):
+        for k in pick_args(rng, range(1, n + 3), big):
             res = M.call(lambda: tr % k)
             if not J.check_result(res, list(range(0, n, k)), tid, {"k": k}):
                 break
@@ -423,7 +442,7 @@ def run_case(case, ctx):
     elif op in ("gt", "lt"):
         tr = T()
         snap = snapshot(tr)
-        for k in range(0, 2 * n + 3):
+        for k in pick_args(rng, range(0, 2 * n + 3), big, 30):
             if op == "gt":
                 res = M.call(lambda: tr > k)
                 exp = list(range(min(k, n), n))
@@ -437,7 +456,7 @@ def run_case(case, ctx):
 
     elif op == "remove_list":
         if n > 8:
-            subsets = [sorted(rng.sample(range(n), rng.randrange(1, n + 1))) for _ in range(200)]
+            subsets = [sorted(rng.sample(range(n), rng.randrange(1, n + 1))) for _ in range(30 if big else 200)]
         else:
             subsets = [list(s) for r in range(1, n + 1) for s in itertools.combinations(range(n), r)]
         for s in subsets:
@@ -456,20 +475,26 @@ def run_case(case, ctx):
             return ood("no index to remove on an empty track", cls)
 
     elif op in ("remove_one", "pop"):
-        for i in range(n):
+        for i_ in pick_args(rng, range(2 * n), big):
+            # every index, then every index spelt from the end (-1 = the last observation), as Python lists allow
+            # and as the library itself uses it (removeObs(-2) in its synthetic generators)
+            i = i_ % n
+            given = i if i_ < n else i - n
+            if given < 0:
+                ctx.count("negative_index")
             tr = T()
             target = tr.getObs(i)
             if op == "remove_one":
-                r = M.call(tr.removeObs, i)
+                r = M.call(tr.removeObs, given) if i_ % 3 else M.call(tr.removeObsList, [given])
             else:
-                r = M.call(tr.popObs, i)
+                r = M.call(tr.popObs, given)
                 if not M.is_raised(r) and r is not target:
-                    J.fail("popObs returned another observation", args={"index": i})
+                    J.fail("popObs returned another observation", args={"index": given})
                     break
             if M.is_raised(r):
-                J.fail(op + " raised", args={"index": i}, raised=r)
+                J.fail(op + " raised", args={"index": given}, raised=r)
                 break
-            if not J.check_result(tr, [j for j in range(n) if j != i], tid, {"index": i}):
+            if not J.check_result(tr, [j for j in range(n) if j != i], tid, {"index": given}):
                 break
         if n == 0:
             return ood("no index to remove on an empty track", cls)
@@ -480,6 +505,8 @@ def run_case(case, ctx):
         if n == 0:
             return ood("slice of an empty track carries no feature table", cls)
         bounds = [None] + list(range(-n - 1, n + 2))
+        if big:
+            bounds = [None] + pick_args(rng, range(-n - 1, n + 2), big, 10)
         for a in bounds:
             for b in bounds:
                 for c in ((None,) if n > 6 else (None, 2, 3, -1)):
